@@ -155,8 +155,54 @@ class Ev:
                 if v not in uniq:
                     uniq.append(v)
             r = uniq[0] if len(uniq) == 1 else ("phi", tuple(uniq))
+            sc = self._short_circuit(defs, at) if len(defs) == 2 else None
+            if sc is not None:
+                r = sc
         self._memo[key] = r
         return r
+
+    def _short_circuit(self, defs, at):
+        """`let t = a && b` / `a || b` lowers to `switch a { false => t = false, true => t = b }`: a join of a boolean
+        literal (assigned in the block the test of `a` jumps to directly) and a computed value.  Recovered as
+        BitAnd(a, b) / BitOr(a, b): the same boolean, with the condition under which `b` was taken kept."""
+        if defs[0][0] != "s" or defs[1][0] != "s":
+            return None
+        lit = other = None
+        for d in defs:
+            st = self.body.blocks[d[1]].stmts[d[2]]
+            rv = st.rv
+            if rv.k == "use" and rv.ops and rv.ops[0].is_const() and rv.ops[0].const_ty() == "bool" and lit is None:
+                lit = (d, bool(rv.ops[0].const_int()))
+            else:
+                other = d
+        if lit is None or other is None:
+            return None
+        (dl, val) = lit
+        F = dl[1]
+        preds = self.body.preds()[F]
+        if len(preds) != 1:
+            return None
+        S = preds[0]
+        t = self.body.blocks[S].term
+        if t is None or t.k != "switch" or t.j.get("dty") != "bool":
+            return None
+        zero_tgts = [b for v, b in t.j["ts"] if int(v) == 0]
+        other_tgt = t.j["o"]
+        if len(t.j["ts"]) != 1 or not zero_tgts:
+            return None
+        # && : the literal false sits on the `a == false` edge;  || : the literal true sits on the `a == true` edge
+        if val is False and zero_tgts[0] == F and other_tgt != F:
+            T0, op = other_tgt, "BitAnd"
+        elif val is True and other_tgt == F and zero_tgts[0] != F:
+            T0, op = zero_tgts[0], "BitOr"
+        else:
+            return None
+        if not (other[1] == T0 or self.body.dominates(T0, other[1])) or self.body.dominates(F, other[1]):
+            return None
+        a = self.operand(t.discr, (S, len(self.body.blocks[S].stmts)))
+        st = self.body.blocks[other[1]].stmts[other[2]]
+        b = self.rvalue(st.rv, (other[1], other[2]))
+        return ("bin", op, a, b)
 
     def param_name(self, l):
         n = self.body.name_of(l)
@@ -360,7 +406,11 @@ def strip(e, unwrap=True):
     if t == "cindex":
         return ("cindex", strip(e[1], unwrap), e[2])
     if t == "downcast":
-        return ("downcast", strip(e[1], unwrap), e[2])
+        inner = strip(e[1], unwrap)
+        # `opt.filter(pred)` is `opt` itself whenever it is Some: the payloads are the same value
+        if e[2] == "Some" and inner[0] == "call" and inner[4] == "filter" and len(inner[2]) == 2 and "ption" in (inner[1] or ""):
+            return ("downcast", inner[2][0], "Some")
+        return ("downcast", inner, e[2])
     if t == "call":
         if is_transparent_call(e) and e[2]:
             return strip(e[2][0], unwrap)
